@@ -347,6 +347,15 @@ func c17Read(ctx *core.Ctx, idx int) core.Result {
 	in := map[string]any{"lines": nlines, "reads": k}
 	var got strings.Builder
 	for i := 0; i < k; i++ {
+		if r.Chance(1, 3) {
+			// a statement that fails (and is reported) between two reads must not disturb the input
+			bad := []string{"1/0", "aton(\"x\")", "for zq <- elems(5) zq", "[1][3]", "nosuch(1)"}[r.Intn(5)]
+			if o := ses.Exec(bad, false); len(o) != 1 || o[0].Err == "" {
+				res.Verdict, res.Reason = core.Inconclusive, "interleaved failing statement did not fail"
+				return res
+			}
+			res.Tag("read:after-runtime-error")
+		}
 		var src string
 		switch r.Intn(3) {
 		case 0:
